@@ -268,7 +268,8 @@ impl<K: KeyT> Sut<K> for Raw<K> {
         }
         let (k, v, w) = (u(op, "k"), u(op, "v"), u(op, "w"));
         match s(op, "op") {
-            "resize" => rint(self.resize(u(op, "n") as usize)),
+            // the largest TLC integer stands for usize::MAX ("resize to any value")
+            "resize" => rint(self.resize(if u(op, "n") >= 2147483647 { usize::MAX } else { u(op, "n") as usize })),
             "remove_lru" => {
                 let r = self.remove_lru();
                 kv_owned(r, h)
